@@ -1,0 +1,72 @@
+//go:build verif
+
+package factory
+
+// ---- lifecycle of one component (C05): before-processors, AfterPropertiesSet, Init, after-processors ----------------
+
+//@ spec func ProcsOK(f *PostProcessorRegistrationDelegate) bool = forall(k, int, implies(0 <= k && k < len(f.componentPostProcessors), f.componentPostProcessors[k] != nil), f.componentPostProcessors[k])
+
+//@ func (*PostProcessorRegistrationDelegate).invokeInitMethods
+//@ property C05 C09
+//@ requires [before-processors-done] St[name] == 2
+//@ assigns St, ApsCalls, InitCalls, Failed, CurName
+//@ ensures [aps-then-init] implies(result == nil, St[name] == ite(implements(component, definition.InitializeComponent), 4, ite(implements(component, definition.InitializingComponent), 3, 2)))
+//@ ensures [aps-once] implies(result == nil, ApsCalls[name] == old(ApsCalls[name]) + ite(implements(component, definition.InitializingComponent), 1, 0))
+//@ ensures [init-once] implies(result == nil, InitCalls[name] == old(InitCalls[name]) + ite(implements(component, definition.InitializeComponent), 1, 0))
+//@ ensures [other-components-untouched] forall(n, string, implies(n != name, St[n] == old(St[n]) && ApsCalls[n] == old(ApsCalls[n]) && InitCalls[n] == old(InitCalls[n])))
+//@ ensures [at-most-once] old(ApsCalls[name]) <= ApsCalls[name] && ApsCalls[name] <= old(ApsCalls[name]) + 1 && old(InitCalls[name]) <= InitCalls[name] && InitCalls[name] <= old(InitCalls[name]) + 1
+//@ ensures [failure-recorded] Failed == (old(Failed) || result != nil)
+//@ ghost before call AfterPropertiesSet: CurName = name
+//@ ghost before call Init: CurName = name
+
+//@ func (*PostProcessorRegistrationDelegate).applyPostProcessBeforeInitialization
+//@ property C05 C09 C12
+//@ requires [populated] St[name] == 1
+//@ requires [processors-non-nil] ProcsOK(f)
+//@ assigns BeforeLen, BeforeAt, Failed
+//@ let n = len(f.componentPostProcessors)
+//@ let b0 = BeforeLen[name]
+//@ ensures [each-processor-once-in-order] implies(result1 == nil && result0 != nil, BeforeLen[name] == b0 + n && forall(k, int, implies(0 <= k && k < n, BeforeAt[name][b0 + k] == f.componentPostProcessors[k])))
+//@ ensures [error-means-nil] implies(result1 != nil, result0 == nil)
+//@ ensures [never-nil-on-success] implies(result1 == nil, result0 != nil || c == nil)
+//@ ensures [other-components-untouched] forall(m, string, implies(m != name, BeforeLen[m] == old(BeforeLen[m]) && BeforeAt[m] == old(BeforeAt[m])))
+//@ ensures [failure-recorded] Failed == (old(Failed) || result1 != nil)
+//@ loop 1 invariant [trace-length] BeforeLen[name] == b0 + _done && 0 <= _done && _done <= n
+//@ loop 1 invariant [trace-in-order] forall(k, int, implies(b0 <= k && k < b0 + _done, BeforeAt[name][k] == f.componentPostProcessors[k - b0]), BeforeAt[name][k])
+//@ loop 1 invariant [no-failure-so-far] Failed == old(Failed) && (current != nil || c == nil)
+//@ loop 1 invariant [other-components-untouched] forall(m, string, implies(m != name, BeforeLen[m] == old(BeforeLen[m]) && BeforeAt[m] == old(BeforeAt[m])))
+
+//@ func (*PostProcessorRegistrationDelegate).applyPostProcessAfterInitialization
+//@ property C05 C09 C12
+//@ requires [init-methods-done] St[name] == 5
+//@ requires [processors-non-nil] ProcsOK(f)
+//@ assigns AfterLen, AfterAt, Failed
+//@ let n = len(f.componentPostProcessors)
+//@ let a0 = AfterLen[name]
+//@ ensures [each-processor-once-in-order] implies(result1 == nil, AfterLen[name] == a0 + n && forall(k, int, implies(0 <= k && k < n, AfterAt[name][a0 + k] == f.componentPostProcessors[k])))
+//@ ensures [error-means-nil] implies(result1 != nil, result0 == nil)
+//@ ensures [never-nil-on-success] implies(result1 == nil && c != nil, result0 != nil)
+//@ ensures [other-components-untouched] forall(m, string, implies(m != name, AfterLen[m] == old(AfterLen[m]) && AfterAt[m] == old(AfterAt[m])))
+//@ ensures [failure-recorded] Failed == (old(Failed) || result1 != nil)
+//@ loop 1 invariant [trace-length] AfterLen[name] == a0 + _done && 0 <= _done && _done <= n
+//@ loop 1 invariant [trace-in-order] forall(k, int, implies(a0 <= k && k < a0 + _done, AfterAt[name][k] == f.componentPostProcessors[k - a0]), AfterAt[name][k])
+//@ loop 1 invariant [no-failure-so-far] Failed == old(Failed) && (result != nil || c == nil)
+//@ loop 1 invariant [other-components-untouched] forall(m, string, implies(m != name, AfterLen[m] == old(AfterLen[m]) && AfterAt[m] == old(AfterAt[m])))
+
+//@ func (*PostProcessorRegistrationDelegate).InitializeComponent
+//@ property C05 C09
+//@ requires [populate-before-initialize] St[name] == 1
+//@ requires [processors-non-nil] ProcsOK(f)
+//@ requires [component-non-nil] m != nil
+//@ assigns St, BeforeLen, BeforeAt, AfterLen, AfterAt, ApsCalls, InitCalls, Failed, CurName
+//@ let n = len(f.componentPostProcessors)
+//@ ensures [stages-in-order] implies(result1 == nil, St[name] == 6)
+//@ ensures [all-before-processors-ran] implies(result1 == nil, BeforeLen[name] == old(BeforeLen[name]) + n)
+//@ ensures [all-after-processors-ran] implies(result1 == nil, AfterLen[name] == old(AfterLen[name]) + n)
+//@ ensures [returns-component] implies(result1 == nil, result0 != nil)
+//@ ensures [init-methods-at-most-once] ApsCalls[name] <= old(ApsCalls[name]) + 1 && InitCalls[name] <= old(InitCalls[name]) + 1
+//@ ensures [other-components-untouched] forall(q, string, implies(q != name, St[q] == old(St[q]) && ApsCalls[q] == old(ApsCalls[q]) && InitCalls[q] == old(InitCalls[q]) && BeforeLen[q] == old(BeforeLen[q]) && AfterLen[q] == old(AfterLen[q])))
+//@ ensures [failure-recorded] Failed == (old(Failed) || result1 != nil)
+//@ ghost after call applyPostProcessBeforeInitialization: St = store(St, name, 2)
+//@ ghost after call invokeInitMethods: St = store(St, name, 5)
+//@ ghost after call applyPostProcessAfterInitialization: St = store(St, name, 6)
